@@ -1,6 +1,7 @@
 package mem
 
 import "container/list"
+import "github.com/inbucket/inbucket/v3/pkg/verifhook"
 
 type msgDone struct {
 	msg  *Message
@@ -25,6 +26,7 @@ func (s *Store) maxSizeEnforcer(maxSize int64) {
 			curSize += int64(m.Size())
 			for curSize > maxSize {
 				// Remove oldest message.
+				verifhook.Yield("mem.enforcer.evict")
 				el := all.Front()
 				all.Remove(el)
 				m := el.Value.(*Message)
